@@ -17,6 +17,7 @@ EvalE(e, env) ==
       [] e.e = "add"   -> EvalE(e.l, env) + EvalE(e.r, env)
       [] e.e = "sub"   -> EvalE(e.l, env) - EvalE(e.r, env)
       [] e.e = "mul"   -> EvalE(e.l, env) * EvalE(e.r, env)
+      [] e.e = "div"   -> EvalE(e.l, env) \div EvalE(e.r, env)      \* exact division (programs divide only when it is exact)
 
 EvalC(c, env) ==
     CASE c.c = "var" -> env[c.n] # 0
